@@ -13,11 +13,11 @@ A_CF = "CollisionFree: no two different page pre-images among the pages of the t
 A_MODEL = "the hand-written Lean model is the code: tied by the correspondence streams listed in the evidence (DESIGN.md section 4)"
 
 CFG = {
- "C01": dict(streams=S("tsmall","tmid","trand","twide","tdeep","tkeylen","tbig"), level="proof",
+ "C01": dict(streams=S("tsmall","tmid","trand","twide","tdeep","tkeylen","tbig","tclone"), level="proof",
     theorems=[P+"C01"],
     text="Theorem C01 (kernel-checked, all histories/level assignments/hashers): histories with the same last-write-wins map yield, after a hash request, the identical tree, root hash and serialisation. Tied to /repo by exhaustive small-scope and random history streams with the full page structure compared after every operation, plus implementation-side oracles (fresh rebuild, reference construction).",
     assumptions=[A_TOTAL, A_LVL, A_MODEL]),
- "C02": dict(streams=S("tsmall","tmid","trand","twide","tdeep","tkeylen","tbig","tlong","thash"), level="proof",
+ "C02": dict(streams=S("tsmall","tmid","trand","twide","tdeep","tkeylen","tbig","tlong","thash","tclone") + S("tpages", profiles=["debug","release"]), level="proof",
     theorems=[P+"C02_no_stale_cache", P+"C02_fresh", P+"C02_gate", P+"C02_regenerated"],
     text="Theorems: the CacheOK invariant holds at every reachable (content, cache-state) pair; a hash request after any interleaving equals the freshly built tree page for page; after any upsert cached root hash and serialisation are unavailable; a hash request restores them. The F1 defect (stale digest) was found by this check and repaired in /repo.",
     assumptions=[A_TOTAL, A_LVL, A_MODEL]),
@@ -45,15 +45,15 @@ CFG = {
     theorems=[P+"C08", P+"C08_histories", P+"C08_empty_peer"],
     text="Theorems: hashed trees with equal content diff to nothing in both directions, for any pair of histories reaching that content; a diff against an empty peer is empty for any local list.",
     assumptions=[A_TOTAL, A_LVL, A_MODEL]),
- "C09": dict(streams=S("tsmall","tmid","trand","twide","tdeep","tkeylen","tbig"), level="proof",
+ "C09": dict(streams=S("tsmall","tmid","trand","twide","tdeep","tkeylen","tbig","tclone"), level="proof",
     theorems=[P+"C09", P+"C09_prefix", P+"C09_canonical"],
     text="Theorem: at every state reachable by any history the in-order keys are strictly ascending and the level stratification / non-emptiness invariant holds; these conditions force the unique shape (root_unique).",
     assumptions=[A_TOTAL, A_LVL, A_MODEL]),
- "C10": dict(streams=S("tsmall","tmid","trand","twide","tdeep","tkeylen","tbig"), level="proof",
+ "C10": dict(streams=S("tsmall","tmid","trand","twide","tdeep","tkeylen","tbig","tclone"), level="proof",
     theorems=[P+"C10", P+"C10_frame"],
     text="Theorem: after any history the content is the key-sorted last-write-wins map (each key once, latest value digest); an upsert leaves every other key's entry untouched.",
     assumptions=[A_TOTAL, A_LVL, A_MODEL]),
- "C11": dict(streams=S("tsmall","tmid","trand","twide","tdeep","tkeylen","tbig","tcfg"), level="proof",
+ "C11": dict(streams=S("tsmall","tmid","trand","twide","tdeep","tkeylen","tbig","tcfg","tpages"), level="proof",
     theorems=[P+"C11_preorder", P+"C11_once", P+"C11_entry", P+"C11_first", P+"C11_nested", P+"C11_siblings", P+"C11_histories"],
     text="Theorems (every reachable hashed tree): the serialisation succeeds and is the pre-order list of pages, each exactly once, each as (first key, last key of its subtree, its digest); first entry spans the tree with the root hash; entries nest inside every page they are listed under; sibling spans are disjoint and ascending; empty tree gives the empty list. Every serialisation produced in the streams is compared with the model's and with an independent reference implementation.",
     assumptions=[A_TOTAL, A_LVL, A_MODEL]),
@@ -69,7 +69,7 @@ CFG = {
     theorems=[P+"C14_level", P+"C14_level_bound", P+"C14_level_machine", P+"C14_level_machine_overflow", P+"C14_root", P+"C14_pages"],
     text="Theorems: level = declarative reference for every byte string and base; after any history the root hash and every page digest equal those of the reference construction built from the sorted content alone. The byte level (token order, SipHash-2-4-128 zero key, finish128 byte order) is executable Lean tied to the siphasher crate and the library by the sip/lvl/hash streams over bases and widths; an independent Rust reference implementation is the implementation-side oracle.",
     assumptions=[A_TOTAL, A_LVL, A_MODEL, "SipHash-2-4-128 modelled, not verified"]),
- "C15": dict(streams=S("tsmall","tmid","trand","twide","tdeep","tkeylen","tbig","tlong","thash","dsmall","drand", profiles=["debug","release"]), level="proof",
+ "C15": dict(streams=S("tsmall","tmid","trand","twide","tdeep","tkeylen","tbig","tlong","thash","tclone","tpages","dsmall","drand","dwide", profiles=["debug","release"]), level="proof",
     theorems=[P+"C15_history", P+"C15_serialise", P+"C15_iter", P+"C15_traverse", P+"C15_diff"],
     text="Theorems: with every panic/unwrap/expect/assert/debug_assert site of the modelled code an explicit error, every history of upserts and hash requests, serialisation at every state (and Some after a hash), node iteration, traversal and the diff of any two hashed real trees return ok - no assertion is reachable. Streams run in debug (assertions on) and release profiles with catch_unwind around every operation.",
     assumptions=[A_TOTAL, A_LVL, A_MODEL, "allocation failure / stack not modelled"]),
@@ -81,7 +81,7 @@ CFG = {
     theorems=[P+"C17_iter", P+"C17_stop", P+"C17_stop_prefix", P+"C17_protocol_page", P+"C17_protocol_node", P+"C17_protocol"],
     text="Theorems (every tree, every visitor, every stop index): the node iterator yields exactly the visit_node sequence; a visitor sees exactly the full callback sequence cut after the first false; the nesting protocol is the (6-line) definition of the trace, tied to the code by comparing every callback sequence incl. early stops, and checked independently by a grammar parser on the implementation side.",
     assumptions=[A_MODEL]),
- "C18": dict(streams=[dict(name="tcfg", profiles=["debug","release"], features=["","mst_default","mst_all"])], level="proof",
+ "C18": dict(streams=[dict(name="tcfg", profiles=["debug","release"], features=["","mst_default","mst_all"]), dict(name="tclone")], level="proof",
     theorems=[P+"C18_base_content", P+"C18_generic", P+"C18_constructors", P+"C18_api_constructors", P+"C18_api_interchangeable", P+"C18_api_three_constructors", P+"C18_api_hash_framing"],
     text="PARTIAL. Theorems: every property theorem is universally quantified over key type, digest types, level function (hasher x base) and page hasher; the base changes only the shape, never the content; equal configurations agree. The construction layer is modelled (Model/Api.lean: Builder and its setters, build, default(), new_with_hasher, Clone/clone_from, the stored hasher and base, SipHasher::default()/new(seed) over the std Hash byte streams of the key/value types, upsert(key,value) computing digests and level) and proved to refine tree-level histories: trees storing the same hasher and base, however constructed, are interchangeable under any two API histories with the same last value per key (C18_api_interchangeable). Decided by correspondence only: cargo feature sets and build profiles (tcfg stream across 3 feature sets x 2 profiles: bases, widths, key kinds, default/seeded/custom hashers, all constructors, both builder orders, clone and clone_from between differently configured trees, the digests of the stored hasher compared with the model's).",
     assumptions=[A_TOTAL, A_LVL, A_MODEL, "what std::hash::Hash writes for Vec<u8>/[u8;N]/String (length prefix / 0xff terminator) is recorded in Model/Api.lean and tied by the hdig lines", "cargo features / build profiles are decided by correspondence only"]),
